@@ -119,7 +119,7 @@ class _Null(object):
 class BrokerRig(object):
     UNKNOWN = "__no_such_portfolio__"
 
-    def __init__(self, t0, quotes_mil, fee, observer, printing=False, ctor_funds=False, ccy="USD"):
+    def __init__(self, t0, quotes_mil, fee, observer, printing=False, ctor_funds=False, ccy="USD", seconds=0.0):
         from qstrader.broker.simulated_broker import SimulatedBroker
         from qstrader.exchange.simulated_exchange import SimulatedExchange
         from qstrader import settings
@@ -128,6 +128,10 @@ class BrokerRig(object):
         self.handler = StubHandler(dict((a, (cur(q["bid"]), cur(q["ask"]))) for a, q in quotes_mil.items()))
         self.fee = fee
         self.obs = observer
+        # every instant handed to the library is the model's minute plus a constant number of seconds (the model counts
+        # minutes; 14:30:00 and 21:00:00 are whole minutes, so 20:59:59.5 is an instant in exchange hours)
+        self.frac = pd.Timedelta(seconds=seconds)
+        ts = self.ts
         start = ts(t0)
         self.t0 = t0
         # ctor_funds: a first account subscription is delivered as the constructor's `initial_funds` instead
@@ -145,6 +149,9 @@ class BrokerRig(object):
             settings.set_print_events(False)
         self.oid = 0
         self.oid_of = {}             # order_id string -> spec order id
+
+    def ts(self, m):
+        return ts(m) + self.frac
 
     # -- one call named as in the specification ---------------------------------------------
     def apply(self, c):
@@ -172,7 +179,7 @@ class BrokerRig(object):
             if op == "sub_acct" and self.ctor_funds and self.ncalls == 1 and amt is not None and amt > 0:
                 from qstrader.broker.simulated_broker import SimulatedBroker
                 from qstrader.exchange.simulated_exchange import SimulatedExchange
-                start = ts(self.t0)
+                start = self.ts(self.t0)
                 b = self.broker = SimulatedBroker(start, SimulatedExchange(start), self.handler, account_id="acct",
                                                   base_currency=self.ccy, initial_funds=amt, fee_model=make_fee(self.fee))
             elif op == "sub_acct":
@@ -196,18 +203,18 @@ class BrokerRig(object):
                 self.oid_of[order.order_id] = self.oid
                 b.submit_order(c["pid"], order)
             elif op == "update":
-                b.update(ts(c["t"]))
+                b.update(self.ts(c["t"]))
             elif op == "price":
                 self.handler.set(c["asset"], cur(c["bid"]), cur(c["ask"]))
             elif op == "pf_sub":
-                b.portfolios[c["pid"]].subscribe_funds(ts(c["t"]), cur(c["a"]))
+                b.portfolios[c["pid"]].subscribe_funds(self.ts(c["t"]), cur(c["a"]))
             elif op == "pf_wd":
-                b.portfolios[c["pid"]].withdraw_funds(ts(c["t"]), cur(c["a"]))
+                b.portfolios[c["pid"]].withdraw_funds(self.ts(c["t"]), cur(c["a"]))
             elif op == "pf_mark":
-                b.portfolios[c["pid"]].update_market_value_of_asset(c["asset"], cur(c["px"]), ts(c["t"]))
+                b.portfolios[c["pid"]].update_market_value_of_asset(c["asset"], cur(c["px"]), self.ts(c["t"]))
             elif op == "pf_txn":
                 from qstrader.broker.transaction.transaction import Transaction
-                txn = Transaction(c["asset"], c["qty"], ts(c["t"]), cur(c["px"]), "direct",
+                txn = Transaction(c["asset"], c["qty"], self.ts(c["t"]), cur(c["px"]), "direct",
                                   commission=cur(c["comm"]))
                 b.portfolios[c["pid"]].transact_asset(txn)
             else:
